@@ -121,7 +121,7 @@ theorem wfS_vars_nodup (t : Tmpl) (hw : t.wfS = true) : nodupNames t.vars = true
 
 /-! ### the factories -/
 
-theorem mkSlots_length {α} (conv : GoVal → Option α) : ∀ (args : List GoVal) (xs : List (Slot α)),
+theorem mkSlots_len_eq {α} (conv : GoVal → Option α) : ∀ (args : List GoVal) (xs : List (Slot α)),
     mkSlots conv args = some xs → xs.length = args.length
   | [], xs, h => by simp [mkSlots] at h; subst h; rfl
   | g :: r, xs, h => by
@@ -135,12 +135,12 @@ theorem mkSlots_length {α} (conv : GoVal → Option α) : ∀ (args : List GoVa
     | str s =>
       simp only [mkSlots] at h
       split at h
-      · exact step _ _ h (fun ys hy => mkSlots_length conv r ys hy)
-      · exact step _ _ h (fun ys hy => mkSlots_length conv r ys hy)
+      · exact step _ _ h (fun ys hy => mkSlots_len_eq conv r ys hy)
+      · exact step _ _ h (fun ys hy => mkSlots_len_eq conv r ys hy)
     | sint k v | uint k v | f32 b | f64 b | bool b | item t | other =>
       simp only [mkSlots] at h
       split at h
-      · exact step _ _ h (fun ys hy => mkSlots_length conv r ys hy)
+      · exact step _ _ h (fun ys hy => mkSlots_len_eq conv r ys hy)
       · cases h
 
 theorem intWidth_of_valid (w : Nat) (h : validWidthInt w = true) :
@@ -166,7 +166,7 @@ theorem mkInt_wfS (w : Nat) (args : List GoVal) (t : Tmpl) (h : mkInt w args = s
       · rename_i hok
         injection h with h; subst h
         simp only [Bool.and_eq_true] at hok
-        have hl := mkSlots_length _ _ _ hs
+        have hl := mkSlots_len_eq _ _ _ hs
         have hw := (intWidth_of_valid w hok.1).1
         simp only [Tmpl.wfS, Bool.and_eq_true, decide_eq_true_eq]
         refine ⟨⟨hok.1, ?_⟩, hok.2⟩
@@ -187,7 +187,7 @@ theorem mkUint_wfS (w : Nat) (args : List GoVal) (t : Tmpl) (h : mkUint w args =
       · rename_i hok
         injection h with h; subst h
         simp only [Bool.and_eq_true] at hok
-        have hl := mkSlots_length _ _ _ hs
+        have hl := mkSlots_len_eq _ _ _ hs
         have hw := (intWidth_of_valid w hok.1).2
         simp only [Tmpl.wfS, Bool.and_eq_true, decide_eq_true_eq]
         refine ⟨⟨hok.1, ?_⟩, hok.2⟩
@@ -206,7 +206,7 @@ theorem mkBoolean_wfS (args : List GoVal) (t : Tmpl) (h : mkBoolean args = some 
       split at h
       · rename_i hok
         injection h with h; subst h
-        have hl := mkSlots_length _ _ _ hs
+        have hl := mkSlots_len_eq _ _ _ hs
         simp only [Tmpl.wfS, Bool.and_eq_true, decide_eq_true_eq]
         exact ⟨by rw [hl]; omega, hok⟩
       · cases h
@@ -229,7 +229,7 @@ theorem mkFloat_wfS (w : Nat) (args : List GoVal) (t : Tmpl) (h : mkFloat w args
         · split at h
           · rename_i hok
             injection h with h; subst h
-            have hl := mkSlots_length _ _ _ hs
+            have hl := mkSlots_len_eq _ _ _ hs
             have hv : validWidthFloat w = true := by simpa using hw
             have hwd := floatWidth_of_valid w hv
             simp only [Tmpl.wfS, Bool.and_eq_true, decide_eq_true_eq, List.length_map]
@@ -237,7 +237,7 @@ theorem mkFloat_wfS (w : Nat) (args : List GoVal) (t : Tmpl) (h : mkFloat w args
             rw [hl]; rw [hwd] at hsz; omega
           · cases h
 
-theorem slotVars_map {α β} (f : Slot α → Slot β) (hval : ∀ v, ∃ v', f (.val v) = .val v') (hvar : ∀ n, f (.var n) = .var n)
+theorem slotVars_map_keep {α β} (f : Slot α → Slot β) (hval : ∀ v, ∃ v', f (.val v) = .val v') (hvar : ∀ n, f (.var n) = .var n)
     (ys : List (Slot α)) : slotVars (ys.map f) = slotVars ys := by
   induction ys with
   | nil => rfl
@@ -260,12 +260,12 @@ theorem mkBinary_wfS (args : List GoVal) (t : Tmpl) (h : mkBinary args = some t)
       · split at h
         · rename_i hok
           injection h with h; subst h
-          have hl := mkSlots_length _ _ _ hs
+          have hl := mkSlots_len_eq _ _ _ hs
           simp only [Tmpl.wfS, Bool.and_eq_true, decide_eq_true_eq, List.length_map]
           refine ⟨by rw [hl]; omega, ?_⟩
           unfold slotsOk at hok ⊢
           simp only [Bool.and_eq_true, List.all_eq_true] at hok ⊢
-          refine ⟨?_, (congrArg nodupNames (slotVars_map _ (fun v => ⟨v.toNat, rfl⟩) (fun _ => rfl) _)).trans hok.2⟩
+          refine ⟨?_, (congrArg nodupNames (slotVars_map_keep _ (fun v => ⟨v.toNat, rfl⟩) (fun _ => rfl) _)).trans hok.2⟩
           intro s hs'
           obtain ⟨s0, hs0, rfl⟩ := List.mem_map.mp hs'
           have := hok.1 s0 hs0
